@@ -36,19 +36,20 @@ def normalize_text(t):
 class Event:
     """One public call.  kind: transform | insn | stmt | subcall;  inst: 'A' | 'B'."""
 
-    def __init__(self, kind, inst, name, texts, sub=None):
-        self.kind, self.inst, self.name, self.texts, self.sub = kind, inst, name, list(texts), sub
+    def __init__(self, kind, inst, name, texts, sub=None, variant=""):
+        # variant distinguishes events that pass different text under the same instruction name
+        self.kind, self.inst, self.name, self.texts, self.sub, self.variant = kind, inst, name, list(texts), sub, variant
 
     def key(self):
-        return (self.kind, self.inst, self.name)
+        return (self.kind, self.inst, self.name, self.variant)
 
     def label(self):
-        return "%s@%s(%s)" % (self.kind, self.inst, self.name)
+        return "%s@%s(%s%s)" % (self.kind, self.inst, self.name, ("/" + self.variant) if self.variant else "")
 
     def base_key(self):
         """Identity of the behaviour independent of the instance (the fresh-state observation of
         the same call on either instance must be equal too)."""
-        return (self.kind, self.name)
+        return (self.kind, self.name, self.variant)
 
 
 _CTX = {}
@@ -230,6 +231,19 @@ def _expand(item):
     hist, ev, drop = item
     obs, dig = run_history(hist + [ev], drop)
     return obs[-1], dig
+
+
+def all_pairs(ctx, alphabet, check, drop=()):
+    """Every history of length 2 over the alphabet, without merging states: the state digest leaves out what the
+    code is assumed never to read back (result caches, the temporaries counter); this layer does not rely on it."""
+    items = [([e1], e2, tuple(drop)) for e1 in alphabet for e2 in alphabet]
+    res = core.pmap(_expand, items, seed=ctx.seed, chunk=16)
+    violations = []
+    for (h, ev, _d), (obs, _dig) in zip(items, res):
+        bad = check(h, ev, obs)
+        if bad:
+            violations.append((h, ev, obs, bad))
+    return {"pair_transitions": len(items), "violations": violations}
 
 
 def search(ctx, alphabet, depth, check, drop=(), initial_histories=None):
